@@ -5,8 +5,9 @@ sentinel planted in builtins, is substituted into each literal position (salt, g
 right operand, tuple member, nested tuple member) of the base shapes, in whichever quote style
 can express it.  Oracle: (1) the Python AST of the generated source with constants masked is
 identical to that of the same program with a harmless literal, and its constants are the
-harmless ones with the marker replaced by the literal; (2) the sequence of callees observed by
-sys.setprofile while compiling and evaluating is identical to the harmless run's; (3) the
+harmless ones with the marker replaced by the literal; (2) the set of callees observed by
+sys.setprofile while EVALUATING is contained in the harmless run's (compiling may loop over the
+characters of a literal, evaluating the fixed skeleton may not call anything new); (3) the
 sentinel is never called."""
 from __future__ import annotations
 
@@ -22,7 +23,7 @@ from ..ref import parse as rp
 LEVEL = "model_checking"
 RULE = ("states = (adversarial string, literal position, quote style) programs; transitions = code generations + "
         "compile-and-evaluate runs under sys.setprofile; oracle = masked-AST identity with the harmless program, "
-        "constant == literal, identical callee sequence, sentinel never invoked")  # fmt: skip
+        "constant == literal, no new callee during evaluation, sentinel never invoked")  # fmt: skip
 
 SIGMA = ["'", '"', "\\", "(", ")", "+", "{", "}", "%", "n", "#", ",", "[", " "]
 S = "__pyab_sentinel__"
@@ -84,15 +85,19 @@ class Profile:
 
 
 def run_profiled(text, env):
-    """compile + evaluate under sys.setprofile -> (outcome class, callee sequence)"""
+    """compile, then evaluate under sys.setprofile -> (outcome class, set of callees of the EVALUATION).
+    Only the evaluation phase is profiled: compiling may legitimately loop over the characters of a
+    literal (an escaping routine), evaluating the compiled skeleton may not call anything new."""
+    b = impl.build(text)
+    if b[0] != "ok":
+        return (b[0], b[0]), frozenset()
     prof = Profile()
     sys.setprofile(prof)
     try:
-        b = impl.build(text)
-        out = impl.call(b[1], env) if b[0] == "ok" else b
+        out = impl.call(b[1], env)
     finally:
         sys.setprofile(None)
-    seq = [s for s in prof.seq if s not in ("quiet", "__enter__", "__exit__", "C:setprofile")]
+    seq = frozenset(s for s in prof.seq if s not in ("quiet", "__enter__", "__exit__", "C:setprofile"))
     return (b[0], out[0]), seq
 
 
@@ -154,10 +159,9 @@ def _work(units):
                         acc.violation(dict(case, sub="sentinel", observed=f"sentinel called {len(calls) - n0}x", why="a payload inside a literal was executed"))
                     elif out != bout:
                         acc.violation(dict(case, sub="outcome", observed=repr(out), why=f"harmless program ends with {bout}"))
-                    elif seq != bseq:
-                        d = next((i for i, (x, y) in enumerate(zip(seq, bseq)) if x != y), min(len(seq), len(bseq)))
-                        acc.violation(dict(case, sub="callees", observed=short(repr(seq[max(0, d - 3) : d + 4]), 200),
-                                           why=f"callee sequence differs from the harmless run at step {d}: {short(repr(bseq[max(0, d - 3) : d + 4]), 200)}"))  # fmt: skip
+                    elif not seq <= bseq:
+                        acc.violation(dict(case, sub="callees", observed=short(repr(sorted(seq - bseq)), 200),
+                                           why=f"evaluating the experiment called something the harmless program's evaluation never calls (its callees: {short(repr(sorted(bseq)), 300)})"))  # fmt: skip
                     elif len(acc.samples) < 1 and S in v:
                         acc.samples.append({"literal": v, "position": pos, "text": short(text, 160), "callees": len(seq)})
     finally:
